@@ -40,11 +40,11 @@ MAX_STEPS = 6000
 
 def cases(tier, seed):
     out = []
-    n = 50 if tier == 'quick' else 500
+    n = 50 if tier == 'quick' else 1500
     for i in range(n):
         out.append({'name': 'asm-%d' % i, 'kind': 'asm',
                     'seed': [seed, 151, i]})
-    n = 8 if tier == 'quick' else 60
+    n = 8 if tier == 'quick' else 200
     for i in range(n):
         out.append({'name': 'core-%d' % i, 'kind': 'core',
                     'seed': [seed, 152, i]})
